@@ -49,7 +49,7 @@ static uint64_t program(const Shared &sh, uint64_t seed, int tid, int iters)
         const ST::string &s = sh.strs[r.below(sh.strs.size())];
         const ST::string &t = sh.strs[r.below(sh.strs.size())];
         try {
-        switch (r.below(30)) {
+        switch (r.below(32)) {
         case 0: d.add(uint64_t(s.compare(t) < 0) + 2 * uint64_t(s.compare_i(t) == 0) + 4 * uint64_t(s == t)); break;
         case 1: d.add(uint64_t(s.find(t.left(2))) ^ uint64_t(s.find_last('a')) ^ uint64_t(s.contains("ta"))); break;
         case 2: d.add(ST::hash()(s) ^ ST::hash_i()(t)); break;
@@ -89,6 +89,10 @@ static uint64_t program(const Shared &sh, uint64_t seed, int tid, int iters)
         case 29: d.add(s.before_first('A', ST::case_insensitive)); d.add(s.after_last("ta", ST::case_insensitive)); d.add(s.replace("A", "#", ST::case_insensitive));
                  for (const ST::string &p : s.split("e", 3, ST::case_insensitive)) d.add(p); for (const ST::string &p : t.split('E', 2, ST::case_insensitive)) d.add(p);
                  d.add(uint64_t(ST::hash_i()(s)) ^ uint64_t(ST::less_i()(s, t)) ^ uint64_t(ST::equal_i()(s, t))); break;
+        // outputs beyond 2 KiB and 4 KiB: the sinks' doubling buffers reach sizes no other operation reaches, and are released again
+        case 30: d.add(ST::format("{>2500}|{}|{<3000}", s, t, i)); d.add(ST::format_latin_1("{>2100}", s.to_latin_1().c_str())); break;
+        case 31: { ST::string_stream big; for (int k = 0; k < 70 + int(r.below(40)); ++k) big << s << k << t; d.add(big.to_string());
+                   ST::string_stream big2; for (int k = 0; k < 120; ++k) big2 << t; d.add(big2.to_string()); break; }
         case 23: { ST::char_buffer cb = own.to_utf8(); ST::char_buffer cc(cb); cc.allocate(3, 'z'); d.add(cb); d.add(cc); ST::utf16_buffer w = ST::utf8_to_utf16(cb); d.add(ST::utf16_to_utf8(w)); break; }
         }
         } catch (const ST::unicode_error &) { d.add(uint64_t(0xE1)); own = "reset"; }
